@@ -265,7 +265,8 @@ class Part(object):
     kind 'elem': the element `val` ; kind 'spread': every element of `val`;
     for dicts `key` is set.  gens: ((var Sym, iterable V), ...);
     conds: ((V, polarity), ...)"""
-    __slots__ = ('kind', 'val', 'key', 'gens', 'conds')
+    __slots__ = ('kind', 'val', 'key', 'gens', 'conds', 'seq')
+    _counter = [0]
 
     def __init__(self, kind, val, key=None, gens=(), conds=()):
         self.kind = kind
@@ -273,6 +274,8 @@ class Part(object):
         self.key = key
         self.gens = tuple(gens)
         self.conds = tuple(conds)
+        Part._counter[0] += 1
+        self.seq = Part._counter[0]
 
     def simple(self):
         return self.kind == 'elem' and not self.gens and not self.conds
@@ -295,6 +298,22 @@ class Part(object):
         for c, pol in self.conds:
             s += ' if %s%r' % ('' if pol else 'not ', c)
         return s
+
+
+class FoldInfo(object):
+    """a loop whose body reads containers it extends: its effect is the
+    sequential fold of `steps` over the generator bindings"""
+
+    def __init__(self, lid):
+        self.lid = lid
+        self.steps = []        # (seq, oid, Part)
+        self.entry = {}        # oid -> (kind, tuple(parts before the loop))
+
+    def __bool__(self):
+        return True
+
+    def __repr__(self):
+        return 'fold#%s' % self.lid
 
 
 class Raise(object):
